@@ -12,7 +12,7 @@ Real code:
   `namespace options { constexpr std::uint32_t <key|id> = <enc value>; … }`                           ↦ `defines` + `stored .cpp`
 * type header, C:   `lang/c/templates/base.j2`
   `{% for key, value in options.items() %}static_assert( NUNAVUT_…_<KEY> == <enc value>, "…" );`      ↦ `asserts`
-  (emitted even under `--omit-serialization-support`, DESIGN F10)
+  (`… if not nunavut.support.omit`: not emitted under `--omit-serialization-support`; they were before 22e33a6, DESIGN F10)
   type header, C++: `lang/cpp/templates/base.j2`
   `{% if not nunavut.support.omit %}{% for … %}static_assert( nunavut::support::options::<key|id> == <enc value>, … )`
 * the compiler evaluating each `static_assert` against the definitions it has seen                    ↦ `checkOne`, `diagnostics`
@@ -61,11 +61,13 @@ def render (name : String → String) : OptSet → Option (List (String × Int))
 def defines (name : String → String) (o : OptSet) : Option (List (String × Int)) := render name o
 
 /-- The option `static_assert`s of a type header generated with option set `o`
-(`pod` = `--omit-serialization-support`: C still emits them, C++ does not). -/
-def asserts (lang : Lang) (pod : Bool) (name : String → String) (o : OptSet) : Option (List (String × Int)) :=
-  match lang, pod with
-  | .cpp, true => some []
-  | _, _ => render name o
+(`pod` = `--omit-serialization-support`: no support header exists then and neither language emits the assertions —
+C since repo commit 22e33a6 (`for … in options.items() if not nunavut.support.omit`), C++ always
+(`{% if not nunavut.support.omit %}` around the loop)). -/
+def asserts (_lang : Lang) (pod : Bool) (name : String → String) (o : OptSet) : Option (List (String × Int)) :=
+  match pod with
+  | true => some []
+  | false => render name o
 
 /-- What the definition holds after the compiler has read it: C keeps the numeral (a macro); C++ converts to
 `std::uint32_t`. -/
@@ -108,6 +110,24 @@ def together (lang : Lang) (pod : Bool) (name : String → String) (o₁ o₂ : 
   match defines name o₁, asserts lang pod name o₂ with
   | some d, some a => some (diagnostics lang d a)
   | _, _ => none
+
+/-- A translation unit that sees several generated type headers: the support header generated with `o₁` and the
+type headers in the order in which their guard blocks are reached (a header that includes another generated header
+reaches the included header's block first), each generated with its *own* option set.  Every type header carries its
+own block of assertions (nothing is shared between headers), so the result is one diagnostic list per header. -/
+def togetherTU (lang : Lang) (pod : Bool) (name : String → String) (o₁ : OptSet) :
+    List OptSet → Option (List (List Diag))
+  | [] => some []
+  | o :: r =>
+    match together lang pod name o₁ o, togetherTU lang pod name o₁ r with
+    | some d, some ds => some (d :: ds)
+    | _, _ => none
+
+/-- The translation unit passes the guards of all its type headers. -/
+def acceptedTU (lang : Lang) (pod : Bool) (name : String → String) (o₁ : OptSet) (hs : List OptSet) : Bool :=
+  match togetherTU lang pod name o₁ hs with
+  | some dss => dss.all List.isEmpty
+  | none => false
 
 /-! ## Documented domain -/
 
